@@ -58,7 +58,7 @@ def solve_observed(env, opts):
 
 def solver_gave_up(ob, ctx):
     """True (and counted as inconclusive) when pep.solve raised because the numerical solver failed inside the
-    dimension-reduction re-solve (status not optimal, no Gram matrix): a solver outcome, not a PEPit outcome.
+    dimension-reduction re-solve (status not optimal): a solver outcome, not a PEPit outcome.
     Any other exception is re-raised for the crash bucketing of the runner."""
     if ob.exc is None:
         return False
@@ -68,7 +68,9 @@ def solver_gave_up(ob, ctx):
     if type(ob.wrapper).__name__ == "MosekWrapper" and ob.status != "optimal":
         ctx.label("inconclusive:standin-status-%s" % ob.status)
         return True
-    if ob.opts.get("drh") and ob.status not in ("optimal", None) and getattr(ob.wrapper, "optimal_G", 0) is None:
+    if ob.opts.get("drh") and ob.status not in ("optimal", None):
+        # (with or without a Gram matrix: after an 'optimal_inaccurate' SCS re-solve the Gram matrix can have eigenvalues of
+        # 1e11, and the next logdet step then fails to invert G + eps I)
         ctx.label("inconclusive:heuristic-resolve-status-%s" % ob.status)
         return True
     raise ob.exc
@@ -208,3 +210,94 @@ def residual_after_entry_equalities(R, lmis):
     alpha, *_ = np.linalg.lstsq(D[:-1, :], r[:-1], rcond=None)
     rest = r - D @ alpha
     return float(np.max(np.abs(rest[:-1]))) if len(rest) > 1 else 0.0, float(rest[-1])
+
+
+# ----------------------------------------------------------------------------------------------------------------
+# dimension-reduction heuristic: what each back-end was asked to minimise
+# ----------------------------------------------------------------------------------------------------------------
+import contextlib
+
+
+@contextlib.contextmanager
+def heuristic_spy():
+    """While active, every call wrapper.heuristic(W) of either back-end is recorded on the wrapper instance
+    (list `_vf_heur`): the weight it was given and the objective the back-end holds right after the call
+    (cvxpy: value of the problem's objective at two fixed symmetric matrices; MOSEK: the objective data of the task).
+    Run-time wrapping from the harness, nothing in the repository is touched."""
+    from PEPit.wrappers.cvxpy_wrapper import CvxpyWrapper
+    from PEPit.wrappers.mosek_wrapper import MosekWrapper
+    o_c, o_m = CvxpyWrapper.heuristic, MosekWrapper.heuristic
+
+    def h_cvxpy(self, weight):
+        out = o_c(self, weight)
+        W = np.array(weight, dtype=float, copy=True)
+        n = W.shape[0]
+        probes = []
+        try:
+            old = self.G.value
+            rs = np.random.RandomState(n)
+            for _ in range(2):
+                B = rs.randint(-3, 4, size=(n, n)).astype(float)
+                G0 = B @ B.T
+                self.G.value = G0
+                probes.append((G0, float(self.prob.objective.value)))
+            self.G.value = old
+        except Exception as exc:  # noqa
+            probes = [("error", repr(exc))]
+        self.__dict__.setdefault("_vf_heur", []).append({"side": "cvxpy", "W": W, "probes": probes})
+        return out
+
+    def h_mosek(self, weight):
+        out = o_m(self, weight)
+        t = self.task
+        self.__dict__.setdefault("_vf_heur", []).append({
+            "side": "mosek", "W": np.array(weight, dtype=float, copy=True),
+            "barC": {j: np.array(M, copy=True) for j, M in getattr(t, "barC", {}).items()},
+            "c": dict(getattr(t, "c", {})), "sense": getattr(t, "sense", None)})
+        return out
+    CvxpyWrapper.heuristic, MosekWrapper.heuristic = h_cvxpy, h_mosek
+    try:
+        yield
+    finally:
+        CvxpyWrapper.heuristic, MosekWrapper.heuristic = o_c, o_m
+
+
+def check_heuristic_objective(ctx, wrapper, prefix=""):
+    """both back-ends must minimise <W, G> for the weight W they were handed (same SDP after the heuristic)"""
+    for rec in getattr(wrapper, "_vf_heur", []):
+        W = rec["W"]
+        Ws = (W + W.T) / 2
+        # W = inv(G + eps I) is symmetric only up to rounding (1e-8 relative for an ill-conditioned G); a back-end may read
+        # one triangle or the symmetric part, so the comparison allows for the asymmetry of the W it was given
+        scale = 1.0 + float(np.max(np.abs(W))) + 1e9 * float(np.max(np.abs(W - W.T)))
+        if rec["side"] == "cvxpy":
+            for G0, v in rec["probes"]:
+                if isinstance(G0, str):
+                    ctx.label("heuristic-objective:probe-unavailable")
+                    continue
+                want = float(np.sum(Ws * G0))
+                if abs(v - want) > 1e-9 * scale * (1 + float(np.max(np.abs(G0)))) * W.shape[0] ** 2:
+                    ctx.fail(prefix + "heuristic-objective-not-weight", "cvxpy back-end: after heuristic(W) the objective takes the "
+                             "value %.9g at a test matrix where <W, G> = %.9g" % (v, want))
+                    return
+        else:
+            import sys
+            mosek = sys.modules.get("mosek")
+            C0 = rec["barC"].get(0)
+            if C0 is None:
+                ctx.fail(prefix + "heuristic-objective-not-weight", "MOSEK back-end: heuristic(W) set no objective on the Gram variable")
+                return
+            err = float(np.max(np.abs((C0 + C0.T) / 2 - Ws)))
+            if err > 1e-9 * scale:
+                i, j = np.unravel_index(np.argmax(np.abs((C0 + C0.T) / 2 - Ws)), Ws.shape)
+                ctx.fail(prefix + "heuristic-objective-not-weight", "MOSEK back-end: after heuristic(W) the task minimises <C, G> with "
+                         "C[%d,%d] = %.9g where W[%d,%d] = %.9g (the cvxpy back-end minimises <W, G>)" % (i, j, C0[i, j], i, j, Ws[i, j]))
+                return
+            if any(abs(v) > 0 for j, v in rec["c"].items()) or any(np.max(np.abs(M)) > 0 for j, M in rec["barC"].items() if j != 0):
+                ctx.fail(prefix + "heuristic-objective-has-other-terms", "MOSEK back-end: the heuristic objective still has terms "
+                         "besides <W, G> (scalar coefficients %r)" % {j: v for j, v in rec["c"].items() if v})
+                return
+            if mosek is not None and rec["sense"] is not None and rec["sense"] != mosek.objsense.minimize:
+                ctx.fail(prefix + "heuristic-objective-sense", "MOSEK back-end: the heuristic objective is not minimised")
+                return
+        ctx.label("heuristic-objective-checked:" + rec["side"])
